@@ -116,6 +116,9 @@ let () =
       if goval <> m1 then
         fail id "CORR" "validate" (trunc (Printf.sprintf "model=%s(%s) impl=%s v0model=%s geom=%s" m1
                                             (match v1 with None -> "nil" | Some r -> rule_name r) goval (b2s (v0 = None)) gtxt));
+      (* validity is a property of the XY point set: the Force2D'd geometry has the same verdict *)
+      if get "f2d" <> "-" && get "f2d" <> goval then
+        fail id "SPEC" "force2d_same_verdict" (trunc (Printf.sprintf "validate=%s force2d=%s geom=%s" goval (get "f2d") gtxt));
       if get "gval" <> goval then fail id "SPEC" "geometry_validate_agrees" (trunc (get "gval" ^ " vs " ^ goval ^ " " ^ gtxt));
       (* decoders gate on Validate *)
       List.iter (fun k ->
